@@ -617,7 +617,22 @@ class WireEval:
             self.writes.append(t)
             return None
         fv = self.ev(f, env)
-        args = [self.ev(a, env) for a in e.args]
+        args = []
+        for a in e.args:
+            if isinstance(a, ast.Starred):
+                # f(*fields): the tuple / list built just before the call
+                sv = self.ev(a.value, env)
+                if not isinstance(sv, (list, tuple)) or (
+                        isinstance(sv, tuple) and sv and isinstance(
+                            sv[0], str) and sv[0] in (
+                            "builtin", "pack_len", "structpack", "dictget",
+                            "listm", "mod")):
+                    raise AnalysisError(
+                        "wire evaluation: `*%s` does not evaluate to a "
+                        "sequence of arguments" % unparse(a.value))
+                args += list(sv)
+            else:
+                args.append(self.ev(a, env))
         kw = {k.arg: self.ev(k.value, env) for k in e.keywords
               if k.arg is not None}
         if isinstance(fv, tuple) and fv and fv[0] == "builtin":
